@@ -87,7 +87,11 @@ def stepTrans (x : Inst) (f t : Nat) : R Inst :=
     else if x.flag then reject s!"instance {x.id}: promotion while already leading"
     else pure { x with state := 2, pendingFlag := some true }
   else if t = 3 then
-    if ¬ x.running ∧ ¬ (x.ctxCancelled ∧ x.flag) then reject s!"instance {x.id}: transition to FOLLOWER while not running"
+    -- (a stop call that has been issued but has not entered its critical section yet - it is parked on the mutex - does not
+    --  keep another goroutine's `becomeFollower` from getting in first: a non-leader records FOLLOWER, the gauge is
+    --  refreshed, and the stop call's own transition follows)
+    if ¬ x.running ∧ x.stopPendingTrans ∧ ¬ x.flag then pure { x with state := 3 }
+    else if ¬ x.running ∧ ¬ (x.ctxCancelled ∧ x.flag) then reject s!"instance {x.id}: transition to FOLLOWER while not running"
     else pure { x with state := 3, pendingFlag := some false }
   else if t = 5 then
     if x.stops.isEmpty then reject s!"instance {x.id}: transition to STOPPED outside a stop call"
